@@ -198,7 +198,8 @@ Record st := mkSt {
 Inductive event :=
 | EBlock (T' : trie) (ops : list refop)      (* block computed (PutBatch = ops, Flush) and committed; new trie T' *)
 | EDrop  (T' : trie) (ops : list refop)      (* block computed on the copy, then dropped (storeBlock's error returns) *)
-| EGC    (G : nat).                          (* Module.GC(G) *)
+| EGC    (G : nat)                           (* Module.GC(G) *)
+| ECollapse.                                 (* Trie.Collapse after a flushed block: clears the refcount map (trie.go:536-544) *)
 
 Definition init : st := mkSt [] [] None None 0.
 
@@ -222,6 +223,7 @@ Definition step (reset : bool) (m : mode) (s : st) (e : event) : option st :=
           else Some (mkSt (s_tbl s) rc' T' (s_com s) (s_n s))
       end
   | EGC G => Some (mkSt (gc (Z.of_nat G) (s_tbl s)) (s_rc s) (s_mem s) (s_com s) (s_n s))
+  | ECollapse => Some (mkSt (s_tbl s) [] (s_mem s) (s_com s) (s_n s))
   end.
 
 Fixpoint run (reset : bool) (m : mode) (s : st) (evs : list event) : option st :=
